@@ -11,14 +11,19 @@ import subprocess
 import sys
 
 V = os.path.dirname(os.path.dirname(os.path.abspath(__file__)))
-REPO = '/repo'
+REPO = os.environ.get('SELFTEST_REPO', '/repo')      # a scratch worktree when sharded (see tools/selftest_sharded.sh)
+SHARD = os.environ.get('SELFTEST_SHARD')               # "i/n": this process takes every n-th mutant
 
 
 def sh(cmd, **kw):
     return subprocess.run(cmd, shell=True, capture_output=True, text=True, **kw)
 
 
-os.environ['VERIF_EVIDENCE_DIR'] = os.path.join(os.path.dirname(os.path.dirname(os.path.abspath(__file__))), '.work', 'evidence-selftest')
+os.environ['VERIF_EVIDENCE_DIR'] = os.path.join(os.path.dirname(os.path.dirname(os.path.abspath(__file__))), '.work', 'evidence-selftest' + (SHARD or '').replace('/', '-'))
+if REPO != '/repo':
+    os.environ['VERIF_REPO'] = REPO
+    # own work directory (facts cache, cargo target dir, lock): shards must not evict each other's facts
+    os.environ['VERIF_WORK'] = os.path.join(REPO + '.work')
 
 
 def main():
@@ -32,6 +37,9 @@ def main():
         print('refusing: /repo has uncommitted changes:\n' + st)
         return 2
     bad = 0
+    if SHARD:
+        i, n = map(int, SHARD.split('/'))
+        specs = [m for k, m in enumerate(specs) if k % n == i]
     for m in specs:
         if sel and not any(s in m['name'] for s in sel):
             continue
